@@ -3,6 +3,7 @@ package main
 import (
 	"fmt"
 	"go/ast"
+	"go/printer"
 	"go/types"
 	"strings"
 )
@@ -219,4 +220,42 @@ func (c *Ctx) splitClosureCall(st *State, x *ast.CallExpr) (*State, *State) {
 		fS = dead()
 	}
 	return tS, fS
+}
+
+// checkAtStmt raises the assertions attached ("at-stmt "<text>" requires <expr>") to simple statements of the function
+// under verification, matched by their gofmt-normalised source text; evaluated in the state just before the statement.
+func (c *Ctx) checkAtStmt(st *State, s ast.Stmt) {
+	if c.fc == nil || len(c.fc.AtStmt) == 0 || c.inlineDepth > 0 || st.dead() {
+		return
+	}
+	switch s.(type) {
+	case *ast.AssignStmt, *ast.ExprStmt, *ast.BranchStmt, *ast.ReturnStmt, *ast.IncDecStmt:
+	default:
+		return
+	}
+	var b strings.Builder
+	if err := printer.Fprint(&b, c.prog.fset, s); err != nil {
+		return
+	}
+	text := strings.Join(strings.Fields(b.String()), " ")
+	cls := c.fc.AtStmt[text]
+	if len(cls) == 0 {
+		return
+	}
+	if c.atStmtSeen == nil {
+		c.atStmtSeen = map[string]bool{}
+	}
+	c.atStmtSeen[text] = true
+	for _, cl := range cls {
+		env := c.newEnv(st, c.entry)
+		env.scopePos = s.Pos()
+		c.goalMode++
+		t := env.boolTerm(cl.Expr)
+		c.goalMode--
+		label := "at-stmt"
+		if cl.Label != "" {
+			label += ":" + cl.Label
+		}
+		c.oblige(st, "call", label, s.Pos(), Implies(And(env.facts...), t), cl.Text)
+	}
 }
